@@ -181,7 +181,7 @@ by `_stop`), so one flag stands for both. -/
 /-- the stream thread's body is `stream_data()`, i.e. `_get_stream_frame()` with its default
     timeout of 1.0 s (`comm.py`; pinned by `Gen.PinsC10.comm_CommHandler__get_stream_frame`, not
     yet extracted by the translator): `thread_stop()` waits at most that long for it -/
-def streamPollTimeout : Nat := 10
+def streamPollTimeout : Nat := Gen.Comm.streamDataTimeout
 
 /-- what the client wrote, in order: the handshake's requests and the set / start requests (stop is `Req.stop`) -/
 inductive Sent where
